@@ -1,6 +1,7 @@
 import DicomModel.Lemmas.Collector
 import DicomModel.Lemmas.LazyEager
 import DicomModel.Lemmas.ReadUntil
+import DicomModel.Lemmas.RefLazy
 /-
 C06 — the lazy reader and the collector agree with the eager reader.
 
@@ -35,6 +36,22 @@ theorem lazy_eq_eager (ts : Syntax) (dict : Tag → Option VR) (bs : Bytes) (fue
   refine ⟨h1, ?_, ?_⟩
   · rw [h1]; exact h2.1
   · rw [h1]; exact h2.2
+
+/-- **on conforming input there is no proviso**: for the encoding of any canonical data set (any nesting
+depth, explicit / undefined lengths, all VRs, encapsulated pixel data with empty or non-empty offset table
+and zero-length fragments, the three uncompressed syntaxes) both the eager reader and the lazy reader with
+every token materialised yield the data set's tokens and end without error (an offset table comes as the
+item value of the same bytes from the lazy reader). No step of such a run is one of the designed
+differences (`LE.AnomStep` is false at every step — part of `Ref.StepTo`). -/
+theorem lazy_eq_eager_canonical (ts : Syntax) (dict : Tag → Option VR) (t : Elems)
+    (h : Ref.canonical ts dict t = true) :
+    readTokens ((Ref.encElems ts t).length + 2) (RState.new ts dict (Ref.encElems ts t)) = (t.tokens, none) ∧
+    ∃ toks', lazyTokens ((Ref.encElems ts t).length + 2) (LState.new ts dict (Ref.encElems ts t)) = (toks', none) ∧
+      LE.ToksRel t.tokens toks' := by
+  simp only [Ref.canonical, Bool.and_eq_true] at h
+  obtain ⟨⟨hd, hc⟩, _⟩ := h
+  have hlen := Ref.tokens_le_elems ts t
+  exact ⟨Ref.readTokens_ref ts dict t hd hc _ (by omega), Ref.lazyTokens_ref ts dict t hd hc _ (by omega)⟩
 
 /-- the designed differences are real: an item delimitation item outside any sequence (Explicit VR LE) is
 ignored by the eager reader and reported as `ItemEnd` by the lazy one, which then fails -/
